@@ -1,6 +1,7 @@
 import SlogModel.Lemmas.BufferCounters
 import SlogModel.Props.C03
 import SlogModel.Props.C09
+import SlogModel.Props.C06
 import SlogModel.Gen.Facts
 
 /-!
@@ -78,5 +79,12 @@ theorem C19_fact_client_metric_sites : Facts.metric_client_sites =
 theorem C19_fact_pending_sites : Facts.metric_pending_sites =
     [("OnChunkInput", 1), ("OnChunkInputRecovered", 1), ("OnChunkConsumed", 2), ("OnChunkLeftover", 2),
      ("OnChunkCorrupted", 2), ("OnChunkDropped", 2)] := by decide   -- 1 = Inc, 2 = Dec
+
+/-- labelled counters are attributed to the right label values: metric key sets are merged with a length prefix per
+key (injective: `C06.C06_merge_injective`), so different label tuples never share a counter set -/
+theorem C19_fact_metric_keys_separated : Facts.route_metric_merge_length_prefixed = some true := by decide
+
+theorem C19_label_sets_distinct (a b : List Bytes) (h : Route.mergeKey a = Route.mergeKey b) : a = b :=
+  C06.C06_merge_injective a b h
 
 end C19
